@@ -30,7 +30,8 @@ def judge(ctx, d, text, answer, how):
 
 def run(ctx):
     n = 2500 if ctx.quick else 60000
-    ctx.cov["rule"] = ("scripts drawn from a grammar-shaped generator over every statement kind (about 85% accepted; a fifth of the generators also draw "
+    ctx.cov["rule"] = ("every nesting of two operators with and without grouping brackets; printed texts of tree-first generated statements (every statement class and clause); "
+                       "scripts drawn from a grammar-shaped generator over every statement kind (about 85% accepted; a fifth of the generators also draw "
                        "constructs known to be rejected), the repository's own SQL and the regression corpus, each under a random dialect; "
                        "(1) correspondence: parse_statements and source() of model and implementation compared on tree dumps / printed text / error kinds, "
                        "same-dialect and cross-dialect; (2) oracle on the implementation: print → re-parse → equal tree and hash → second print equal, for every "
@@ -38,6 +39,8 @@ def run(ctx):
     ctx.assumptions += ["Supports d t excludes only DDL attributes/options the other dialect's printer drops by design and Hive-only query clauses for non-Hive targets (C13/C18)"]
     cases = [(d, t, "regression") for d, t in pfam.regression_cases()] + [(d, t, "corpus") for d, t in pfam.corpus_statements()]
     cases += pfam.scripts(ctx.rng.fork("scripts"), n, wild=0.15, mutate=0.05)
+    cases += [(d, t, "tree-first") for d, t in pfam.tree_texts(ctx.rng.fork("trees"), 120 if ctx.quick else 3000)]
+    cases += [(d, t, "operator-pairs") for d in (("MYSQL", "HIVE") if ctx.quick else ("MYSQL", "HIVE", "DB2", "DEFAULT")) for t in pfam.operator_pairs(d)]
     # correspondence: parse, print in the same dialect, print in another dialect
     r = ctx.rng.fork("dialects")
     reqs = [pfam.req_parse(d, t) for d, t, _ in cases]
